@@ -31,6 +31,27 @@ Binding: TypeAlias = Arg
 TypeBinding = Tuple[str, Qtype]
 
 
+# Names a call of which is given a meaning before the definitions of the environment are looked
+# at (ast2ast rewrites print, range, len, sum, ord, chr, any, all, min, max and folds them and abs
+# on constants; translate_expression handles int and float): a definition under one of them would
+# not be the one a call reaches
+RESERVED_FUNCTION_NAMES = (
+    "print",
+    "range",
+    "len",
+    "sum",
+    "ord",
+    "chr",
+    "any",
+    "all",
+    "min",
+    "max",
+    "abs",
+    "int",
+    "float",
+)
+
+
 class Env:
     def __init__(self) -> None:
         self.bindings: List[Binding] = []
@@ -61,8 +82,12 @@ class Env:
         return len(list(filter(lambda x: x[0] == fun_name, self.defs))) == 1
 
     def bind_function(self, deff: LogicFun):
-        if self.know_type(deff[0]):
-            return
+        # A call of a type name is a typecast, a call of a reserved name is rewritten: the
+        # definition would be ignored without a word, while Python calls it
+        if self.know_type(deff[0]) or deff[0] in RESERVED_FUNCTION_NAMES:
+            raise Exception(
+                f"a function cannot be called like a type or a builtin: {deff[0]}"
+            )
 
         # Replace all the symbols in expr with def_name+symbol
         def arg_rename(a):
